@@ -18,7 +18,7 @@ Broken(r) ==
   \cup (IF r.kind = "ctxErr" /\ ~(r.isctx /\ r.docnil /\ r.fired) THEN {"ctxerr"} ELSE {})
   \cup (IF r.kind = "done" /\ ~r.same THEN {"done"} ELSE {})
   \cup (IF r.fired /\ r.mode \notin PreModes /\ r.after > OpsBound(r.size) THEN {"ops"} ELSE {})
-  \cup (IF r.mode = "timer" /\ r.fired /\ r.aftercpu > TimeBoundUs(r.fullcpu) THEN {"time"} ELSE {})
+  \cup (IF r.mode \in {"timer", "gap", "det"} /\ r.fired /\ r.aftercpu > TimeBoundUs(r.fullcpu) THEN {"time"} ELSE {})
 
 RecordOK == l <= Len(Trace) =>
               LET b == Broken(Trace[l]) IN
